@@ -54,3 +54,6 @@ Definition atoi_lossy (s : str) : Z :=
       end
     end
   end.
+
+(** int64 wrap-around of Go's [int] arithmetic *)
+Definition wrap64 (z : Z) : Z := ((z + 9223372036854775808) mod 18446744073709551616 - 9223372036854775808)%Z.
